@@ -10,7 +10,7 @@ from __future__ import annotations
 
 from hypothesis import strategies as st
 
-from ..dsl.storework import ABSENT, FinalRead, IntervalOracle, Span, WorkerHarness, before, span_generator
+from ..dsl.storework import ABSENT, FinalRead, IntervalOracle, WorkerHarness, before, span_generator
 from ..harness import ticks
 from ..runner import Obligation, Result
 
@@ -49,26 +49,31 @@ def build(case, stop_after=None):
         """harness-side subclass: logs (seq, key, value) at append and every truncate bound; behaviour unchanged"""
         def __init__(self, *a, **k):
             super().__init__(*a, **k)
-            self.applog, self.truncs, self.unsafe = [], [], set()
+            self.applog, self.truncs, self.unsafe, self.unapplied, self.home = [], [], set(), set(), {}
 
         def append(self, key, value):
-            self.applog.append((self._next_sequence, key, ABSENT if value is _TOMBSTONE else value))
-            return (yield from super().append(key, value))
+            seq = self._next_sequence
+            self.applog.append((seq, key, ABSENT if value is _TOMBSTONE else value))
+            self.unapplied.add(seq)
+            out = yield from super().append(key, value)
+            self.unapplied.discard(seq)        # the caller applies the entry to the active memtable in the same step
+            tree = getattr(self, "peek", None)
+            if tree is not None:
+                self.home[seq] = tree._memtable
+            return out
 
         def truncate(self, up_to_sequence):
             self.truncs.append(up_to_sequence)
             # classification aid (read-only peek): entries dropped from the log although their data is still only in volatile
-            # memory - held by the active memtable / a frozen memtable not yet installed, or not even applied yet (op in flight)
-            tree, ops, spans_ = getattr(self, "peek", (None, (), ()))
+            # memory: the memtable they were applied to (``home``) is still the active one or frozen-but-not-installed, or they are not
+            # applied at all yet (append still in its latency)
+            tree = getattr(self, "peek", None)
             if tree is not None:
-                vol = [tree._memtable._data]
-                for sp in spans_:      # memtables frozen but not yet installed as SSTable: contents captured at the freeze
-                    if sp.name == "flush" and sp.aux is not None and any(sp.aux[1] is m for m in tree._immutable_memtables):
-                        vol.append(sp.aux[0])
-                flying = {r_.aux for r_ in ops if not r_.done}
-                gone = [e for e in self._entries if e.sequence_number <= up_to_sequence]
-                bad_keys = {e.key for e in gone if e.sequence_number in flying or any(d.get(e.key) is e.value for d in vol)}
-                self.unsafe.update(e.sequence_number for e in gone if e.key in bad_keys)
+                vol = [tree._memtable] + list(tree._immutable_memtables)
+                for e in self._entries:
+                    s_ = e.sequence_number
+                    if s_ <= up_to_sequence and (s_ in self.unapplied or any(self.home.get(s_) is m for m in vol)):
+                        self.unsafe.add(s_)
             return super().truncate(up_to_sequence)
 
     pol_i = g("sync") % 3
@@ -111,18 +116,9 @@ def build(case, stop_after=None):
     workers = [w if isinstance(w, dict) else {} for w in (case.get("workers") or [])][:4]
     h = WorkerHarness([lsm], workers, do_op, op_gap=lambda op: _op(op)[2], after_event=sample)
     spans = []
-    wal.peek = (lsm, h.ops, spans)
+    wal.peek = lsm
     span_generator(lsm, "_compact", spans, h.now_ns, "compact")
-    orig_flush = lsm._flush_memtable
-
-    def flush_logged():
-        sp = Span("flush", h.now_ns())
-        sp.aux = (dict(lsm._memtable._data), lsm._memtable)      # contents and identity of the memtable being frozen
-        spans.append(sp)
-        r_ = yield from orig_flush()
-        sp.end = h.now_ns()
-        return r_
-    lsm._flush_memtable = flush_logged
+    span_generator(lsm, "_flush_memtable", spans, h.now_ns, "flush")
     h.run(stop_after)
     return h, lsm, wal, {"keys": keys, "spans": spans, "smax": smax, "desc": f"{sname}/{['every', 'batch', 'periodic'][pol_i]}"}
 
@@ -179,7 +175,11 @@ def judge_crash_point(r, obl, case, k, seen):
             elif any(d.rec.aux in wal.unsafe for d in lost):
                 clause = "wal-truncated-past-unflushed-entry"
             elif pre[key] == got:
-                clause = "wrong-before-the-crash-already"
+                # not a recovery problem: the store already returned this value before the crash (C14 territory); attributed
+                # to the one known C14 root cause that is persistent if two compactions ran at the same time
+                co = [s_ for s_ in info["spans"] if s_.name == "compact" and s_.end != s_.start]
+                twice = any(a is not b and a.start <= b.start and (a.end is None or b.start < a.end) for a in co for b in co)
+                clause = "concurrent-compactions-lose-newer-data" if twice else "wrong-before-the-crash-already"
             elif info["smax"][1] or S_now < S:
                 clause = "synced-up-to-moved-backwards"
             elif got is ABSENT or any(d.value is not ABSENT for d in killers):
@@ -255,10 +255,10 @@ _RULE = ("writers doing put/delete over 2-5 keys on LSMTree(memtable 1-4, 2-4 le
          "crash(), recover_from_crash(), get_sync of all keys, recover again, crash+recover again; ")
 
 OBLIGATIONS = [
-    Obligation("crash", strategy(False), execute_factory("crash"), {"quick": 260, "thorough": 8000},
+    Obligation("crash", strategy(False), execute_factory("crash"), {"quick": 360, "thorough": 8000},
                _RULE + "2-4 concurrent writers with generated start offsets; non-trivial = at least one crash point at which a flush or "
                "compaction generator is suspended", case_timeout={"quick": 60.0, "thorough": 180.0}),
-    Obligation("crash-single-writer", strategy(True), execute_factory("crash-single-writer"), {"quick": 140, "thorough": 4000},
+    Obligation("crash-single-writer", strategy(True), execute_factory("crash-single-writer"), {"quick": 180, "thorough": 4000},
                _RULE + "one writer (restricted domain: flushes and compactions run inside the put that triggers them, so no WAL entry "
                "of a newer memtable exists when the log is truncated and no two compactions overlap); same non-trivial rule",
                case_timeout={"quick": 60.0, "thorough": 180.0}),
